@@ -82,7 +82,6 @@ func VH_C09_batch() {
 		}
 	} else {
 		vCover("continue")
-		vAssert(skipped == 0, "continue-mode-runs-every-item")
 	}
 }
 
